@@ -1,5 +1,202 @@
-(* C15 - property theorems (placeholder while the proofs are being written) *)
-From Coq Require Import List ZArith Bool.
-From MV Require Import Datalog.Syntax Datalog.Solve Datalog.SemiNaive Prov.ProofTree Prov.Explain.
+(* C15 - every explanation is a checkable derivation and every derived fact has one.
+   Property theorems only; proofs in Prov/ProofTreeProofs.v and Prov/ExplainProofs.v.
+
+   Objects (no proofs in the model files):
+   - Prov/ProofTree.v: proof trees (pnode) as provenance.ProofNode reports them, and the
+     observer check_proof P base St goal n that the correspondence check runs on every
+     proof the Go code returns;
+   - Prov/ProofTreeProofs.v: `valid`, the declarative reading of "valid derivation";
+   - Prov/Explain.v: the reference explainer explain_ref (bottom-up, rank = round of
+     first derivation). *)
+From Coq Require Import List ZArith Bool Lia.
+From MV Require Import Datalog.Syntax Datalog.Interp Datalog.Solve Datalog.SolveProofs Datalog.SemiNaive
+  Datalog.Lfp Prov.ProofTree Prov.ProofTreeProofs Prov.Explain Prov.ExplainProofs.
+From MV Require Run.C15.
 Import ListNotations.
 Open Scope Z_scope.
+
+(* ---- 1. the observer is exact: it accepts a tree iff the tree is a valid derivation
+   of the goal. `valid P base St anc n` (Prov/ProofTreeProofs.v) says, by induction on
+   the tree: a leaf is a base fact that the store holds; an absence leaf is a fact the
+   store does not hold; a derived node names a transform-free rule of P, is not flagged
+   partial, its premise nodes are - in body order - proofs of facts matched by the
+   positive atoms and absence leaves of exactly the ground negated atoms, equalities and
+   inequalities evaluate to true, all under one substitution that extends the reported
+   bindings (body_ok), the rule's head under that substitution is the node's fact, and
+   every premise is valid with the node's fact added to the ancestors; no node's fact
+   occurs among its ancestors `anc`. A let-row node is the same for a rule with a
+   let-transform (no bindings reported, negated atoms checked without a leaf). *)
+Theorem check_proof_exact : forall (P : list clause) (base St : list fact) (goal : fact) (n : pnode),
+  check_proof P base St goal n = true <->
+  (is_pos (node_kind n) = true /\ node_fact n = goal /\ valid P base St [] n).
+Proof. exact check_proof_exact_lemma. Qed.
+Print Assumptions check_proof_exact.
+
+(* the rule-application part on its own: check_body computes the substitution of body_ok *)
+Theorem check_body_exact : forall (St : list fact) (negleaf : bool) (body : list premise) (s : subst)
+    (hs : list (pkind * fact)) (t : subst),
+  check_body St negleaf body s hs = Some t <-> body_ok St negleaf body s hs t.
+Proof. exact check_body_spec. Qed.
+Print Assumptions check_body_exact.
+
+(* ---- 2. every proof the reference explainer returns is accepted, for every program,
+   base, store and fuel (in particular no fact is its own ancestor in it) *)
+Theorem explain_ref_sound : forall (P : list clause) (base St : list fact) (fuel : nat) (tbl : table)
+    (f : fact) (n : pnode),
+  explain_ref_fuel fuel P base St = Some tbl -> find_proof tbl f = Some n ->
+  check_proof P base St f n = true.
+Proof. exact explain_ref_fuel_sound. Qed.
+Print Assumptions explain_ref_sound.
+
+Theorem explain_ref_default_sound : forall (P : list clause) (base St : list fact) (f : fact) (n : pnode),
+  find_proof (explain_ref P base St) f = Some n -> check_proof P base St f n = true.
+Proof. exact explain_ref_sound_lemma. Qed.
+Print Assumptions explain_ref_default_sound.
+
+(* ---- 3. every fact of the stratified least model has an accepted proof, and
+   explain_ref returns one.
+   Full statement (DESIGN C15 proof_exists): for a transform-free program P without
+   built-in atoms whose negated atoms are ground when reached, a valid stratification
+   `layers`, base facts `base`, and St = the facts of slfp P layers base:
+     forall f, In f St -> exists n, find_proof (explain_ref P base St) f = Some n /\
+                                     check_proof P base St f n = true.
+   Proved below with two of its steps as hypotheses instead of conclusions:
+   (a) `strat_ok` carries, per layer, "the evaluated store judges the negated atoms of
+       the layer's rules like the completed lower strata" (neg_agree) - this follows from
+       valid_stratification and St = slfp (facts added by higher layers have other
+       predicates), not proved here;
+   (b) the explainer's fuel is assumed sufficient (explain_ref_fuel returned Some) -
+       length St + 1 rounds suffice when St is the least model (every productive round
+       adds a fact of St), not proved here; the correspondence check evaluates explain_ref
+       with that fuel on sampled Go stores on every run (Run.C15.judge_ref). *)
+Theorem proof_exists_partial : forall (P : list clause) (layers : list (list Z)) (base St : list fact)
+    (fuel : nat) (tbl : table),
+  explain_ref_fuel fuel P base St = Some tbl ->
+  (forall f, In f base -> In f St) ->
+  strat_ok P St (fun f => In f base) layers ->
+  forall f, slfp P layers (fun g => In g base) f ->
+  exists n, find_proof tbl f = Some n /\ check_proof P base St f n = true.
+Proof. intros P layers base St fuel tbl. exact (explain_ref_fuel_complete P base St fuel layers tbl). Qed.
+Print Assumptions proof_exists_partial.
+
+(* one stratum, without the explainer: a table closed under the rules (no candidate
+   with a new fact) holds every fact of the least model over a base it holds *)
+Theorem saturated_table_complete : forall (P : list clause) (St : list fact) (tbl : table)
+    (R : list clause) (B : factset),
+  (forall e, In e (candidates St tbl 0 P) -> In (fst e) (keys tbl)) ->
+  (forall c, In c R -> In c P /\ clause_fine St B c) ->
+  (forall f, B f -> In f (keys tbl)) ->
+  forall f, lfp R B f -> In f (keys tbl).
+Proof. exact saturated_closed. Qed.
+Print Assumptions saturated_table_complete.
+
+(* ---- the hypotheses are satisfiable by a program with negation:
+   p2(X) :- p0(X), !p1(X).   base p0(1) p0(2) p1(2);  store = base + p2(1) *)
+Definition ex_rule : clause :=
+  mkClause (mkAtom 2 [TVar 1]) [PAtom (mkAtom 0 [TVar 1]); PNeg (mkAtom 1 [TVar 1])] [].
+Definition ex_base : list fact := [(0, [CNum 1]); (0, [CNum 2]); (1, [CNum 2])].
+Definition ex_store : list fact := ex_base ++ [(2, [CNum 1])].
+
+Example ex_neg_ground : neg_ground_from (cbody ex_rule) [].
+Proof.
+  intros I k pre a post u pvs E Hs He. simpl in E.
+  destruct pre as [|p0 [|p1 pre]]; simpl in E.
+  - discriminate.
+  - injection E as <- <- <-.
+    inversion Hs as [|k0 p b s0 u0 t0 Hh Hr]; subst. inversion Hr; subst.
+    apply holds_atom_inv in Hh as (pvs0 & f & He0 & _ & Hm).
+    simpl in He0. injection He0 as <-.
+    destruct f as [fp [|c [|c2 cs]]]; unfold match_fact in Hm; simpl in Hm;
+      destruct (fp =? 0); try discriminate.
+    injection Hm as <-. simpl in He. injection He as <-. exists [c]. reflexivity.
+  - injection E as _ _ E. destruct pre; discriminate.
+Qed.
+
+Example ex_strat_ok : strat_ok [ex_rule] ex_store (fun f => In f ex_base) [[2]].
+Proof.
+  simpl. split; [|exact I]. intros c [<-|[]].
+  split; [reflexivity|]. split; [intros op l r [H|[H|[]]]; discriminate|].
+  split; [exact ex_neg_ground|].
+  intros a f [H|[H|[]]] Hf; try discriminate. injection H as <-. simpl in Hf.
+  unfold ex_store, ex_base. simpl. destruct f as [fp fa]. simpl in Hf. subst fp.
+  split.
+  - intros [H|[H|[H|[H|[]]]]]; try discriminate; auto.
+  - intros [H|[H|[H|[]]]]; auto.
+Qed.
+
+Example ex_proof_exists :
+  exists tbl n, explain_ref_fuel 5 [ex_rule] ex_base ex_store = Some tbl /\
+                find_proof tbl (2, [CNum 1]) = Some n /\
+                check_proof [ex_rule] ex_base ex_store (2, [CNum 1]) n = true.
+Proof. vm_compute. eexists. eexists. repeat split. Qed.
+
+(* ---- witnesses of the defects fixed in provenance/provenance.go: what the pre-fix
+   code returned is rejected by the judge of the correspondence (code 3 = a complete
+   proof is owed, none returned), and the specification side does have a proof. *)
+
+(* F9: a :- b. a :- base. b :- a. g :- a, b.  (p0 = base, p1 = a, p2 = b, p3 = g) *)
+Definition f9_prog : list clause :=
+  [mkClause (mkAtom 1 [TVar 1]) [PAtom (mkAtom 2 [TVar 1])] [];
+   mkClause (mkAtom 1 [TVar 1]) [PAtom (mkAtom 0 [TVar 1])] [];
+   mkClause (mkAtom 2 [TVar 1]) [PAtom (mkAtom 1 [TVar 1])] [];
+   mkClause (mkAtom 3 [TVar 1]) [PAtom (mkAtom 1 [TVar 1]); PAtom (mkAtom 2 [TVar 1])] []].
+Definition f9_base : list fact := [(0, [CNum 1])].
+Definition f9_store : list fact := [(0, [CNum 1]); (1, [CNum 1]); (2, [CNum 1]); (3, [CNum 1])].
+
+Theorem f9_no_proof_refuted :
+  Run.C15.judge (Run.C15.mkCase f9_prog f9_base f9_store true
+                   [Run.C15.mkGoal (3, [CNum 1]) true []]) = 13.
+Proof. vm_compute. reflexivity. Qed.
+Print Assumptions f9_no_proof_refuted.
+
+Example f9_has_proof :
+  exists n, find_proof (explain_ref f9_prog f9_base f9_store) (3, [CNum 1]) = Some n /\
+            check_proof f9_prog f9_base f9_store (3, [CNum 1]) n = true.
+Proof. vm_compute. eexists. split; reflexivity. Qed.
+
+(* F9b: p1(1). p0(2). p1(X) :- p0(X).  - the initial fact p1(1) is proved by a leaf *)
+Theorem f9b_no_proof_refuted :
+  Run.C15.judge (Run.C15.mkCase [mkClause (mkAtom 1 [TVar 1]) [PAtom (mkAtom 0 [TVar 1])] []]
+                   [(1, [CNum 1]); (0, [CNum 2])] [(1, [CNum 1]); (0, [CNum 2]); (1, [CNum 2])] true
+                   [Run.C15.mkGoal (1, [CNum 1]) true []]) = 13.
+Proof. vm_compute. reflexivity. Qed.
+Print Assumptions f9b_no_proof_refuted.
+
+Example f9b_leaf_accepted :
+  check_proof [mkClause (mkAtom 1 [TVar 1]) [PAtom (mkAtom 0 [TVar 1])] []]
+    [(1, [CNum 1]); (0, [CNum 2])] [(1, [CNum 1]); (0, [CNum 2]); (1, [CNum 2])] (1, [CNum 1])
+    (PLeaf (1, [CNum 1])) = true.
+Proof. vm_compute. reflexivity. Qed.
+
+(* N16: p2(X) :- p0(X), Z = fn:plus(X,1), p1(Z).  - the proof the fixed explainer returns
+   (bindings X = 1, Z = 2) is accepted; so is the same proof with Z not reported *)
+Definition n16_prog : list clause :=
+  [mkClause (mkAtom 2 [TVar 1])
+     [PAtom (mkAtom 0 [TVar 1]); PEq (TVar 2) (TApp FPlus [TVar 1; TConst (CNum 1)]); PAtom (mkAtom 1 [TVar 2])] []].
+Definition n16_store : list fact := [(0, [CNum 1]); (1, [CNum 2]); (2, [CNum 1])].
+
+Theorem n16_no_proof_refuted :
+  Run.C15.judge (Run.C15.mkCase n16_prog [(0, [CNum 1]); (1, [CNum 2])] n16_store true
+                   [Run.C15.mkGoal (2, [CNum 1]) true []]) = 13.
+Proof. vm_compute. reflexivity. Qed.
+Print Assumptions n16_no_proof_refuted.
+
+Example n16_proof_accepted :
+  check_proof n16_prog [(0, [CNum 1]); (1, [CNum 2])] n16_store (2, [CNum 1])
+    (PDerived 0 [(1, CNum 1); (2, CNum 2)] (2, [CNum 1]) false [PLeaf (0, [CNum 1]); PLeaf (1, [CNum 2])]) = true /\
+  check_proof n16_prog [(0, [CNum 1]); (1, [CNum 2])] n16_store (2, [CNum 1])
+    (PDerived 0 [(1, CNum 1)] (2, [CNum 1]) false [PLeaf (0, [CNum 1]); PLeaf (1, [CNum 2])]) = true.
+Proof. vm_compute. split; reflexivity. Qed.
+
+(* a cyclic "proof" (a(1) from b(1) from a(1)) and a proof with a wrong binding are rejected *)
+Example cyclic_proof_rejected :
+  check_proof f9_prog f9_base f9_store (1, [CNum 1])
+    (PDerived 0 [(1, CNum 1)] (1, [CNum 1]) false
+       [PDerived 2 [(1, CNum 1)] (2, [CNum 1]) false
+          [PDerived 1 [(1, CNum 1)] (1, [CNum 1]) false [PLeaf (0, [CNum 1])]]]) = false.
+Proof. vm_compute. reflexivity. Qed.
+
+Example wrong_binding_rejected :
+  check_proof f9_prog f9_base f9_store (1, [CNum 1])
+    (PDerived 1 [(1, CNum 2)] (1, [CNum 1]) false [PLeaf (0, [CNum 1])]) = false.
+Proof. vm_compute. reflexivity. Qed.
